@@ -108,6 +108,10 @@ func run(c *fw.Ctx, idx int) {
 	}
 	ctx := context.Background()
 	r := c.Rand("main")
+	if idx%16 == 15 {
+		presetCase(ctx, c, e, r, idx)
+		return
+	}
 	name := fmt.Sprintf("m%d", idx)
 	e.inf.SetName(name)
 	e.alloc.Descend = r.Bool()
@@ -293,4 +297,66 @@ func snapshot(ctx context.Context, e *env) string {
 	}
 	sort.Strings(s)
 	return strings.Join(s, "|")
+}
+
+// presetCase: the Cluster.Pin endpoint as the adders use it - a whole pin record
+// whose allocations were chosen before (BlockAllocate). Whenever the factors
+// in effect (the request's, or the cluster defaults where the request leaves
+// them at 0) are -1, the pin is for everybody: the stored and the returned
+// record carry -1/-1 and an empty allocation list, whatever was preset.
+func presetCase(ctx context.Context, c *fw.Ctx, e *env, r *fw.Rand, idx int) {
+	var members []peer.ID
+	for i := 0; i < 6; i++ {
+		members = append(members, gen.Peer(i))
+	}
+	e.shared.Reset(members)
+	defMin, defMax := e.node.Cfg.ReplicationFactorMin, e.node.Cfg.ReplicationFactorMax
+	defer func() { e.node.Cfg.ReplicationFactorMin, e.node.Cfg.ReplicationFactorMax = defMin, defMax }()
+	clusterDefault := r.Pick("-1", "2-3")
+	if clusterDefault == "-1" {
+		e.node.Cfg.ReplicationFactorMin, e.node.Cfg.ReplicationFactorMax = -1, -1
+	}
+	req := r.Pick("0", "-1")
+	if clusterDefault != "-1" {
+		req = "-1"
+	}
+	target := gen.UCid(idx % 7)
+	arg := api.PinCid(target)
+	arg.Name = "preset"
+	if req == "-1" {
+		arg.ReplicationFactorMin, arg.ReplicationFactorMax = -1, -1
+	}
+	perm := r.Perm(6)
+	for i := r.Range(1, 4); i > 0; i-- {
+		arg.Allocations = append(arg.Allocations, gen.Peer(perm[i]))
+	}
+	if r.Bool() {
+		// something is stored already
+		old := api.PinCid(target)
+		old.Name = "old"
+		old.ReplicationFactorMin, old.ReplicationFactorMax = 1, 2
+		old.Allocations = []peer.ID{gen.Peer(perm[0])}
+		e.shared.St.Add(ctx, old)
+	}
+	c.Journal("case %d preset default=%s request=%s preset=%s", idx, clusterDefault, req, pidx(arg.Allocations))
+	var out api.Pin
+	err := e.node.Client.CallContext(ctx, "", "Cluster", "Pin", arg, &out)
+	c.Eval(fmt.Sprintf("pin-preset/default=%s/request=%s/err=%v", clusterDefault, req, err != nil))
+	if err != nil {
+		return
+	}
+	st, gerr := e.shared.St.Get(ctx, target)
+	if gerr != nil {
+		c.Violation("C03/pin-preset/not-stored", "Pin succeeded but the CID is not in the pinset", nil)
+		return
+	}
+	detail := map[string]interface{}{"cluster_default": clusterDefault, "request": req, "preset": pidx(arg.Allocations), "returned": pidx(out.Allocations), "stored": pidx(st.Allocations),
+		"stored_factors": fmt.Sprintf("%d/%d", st.ReplicationFactorMin, st.ReplicationFactorMax)}
+	if st.ReplicationFactorMin != -1 || st.ReplicationFactorMax != -1 {
+		c.Violation("C03/pin-preset/factors-in-effect-not-stored", "the factors in effect are -1/-1, the stored entry says otherwise", detail)
+		return
+	}
+	if len(st.Allocations) != 0 || len(out.Allocations) != 0 {
+		c.Violation("C03/pin-preset/everywhere-pin-with-allocations/default="+clusterDefault+"/request="+req, "a pin with replication factor -1 is stored or returned with a non-empty allocation list", detail)
+	}
 }
